@@ -16,12 +16,13 @@ class LogModel(Model):
 
 
 class S(System):
-    __slots__ = ['completes', 'first']
+    __slots__ = ['completes', 'first', 'raises']
 
     def __init__(self, id, model, priority=0):
         super().__init__(id, model, priority=priority)
         self.completes = False
         self.first = None
+        self.raises = False
 
     def execute(self):
         self.model.log.append((self.id, self.model.systems.timestep))
@@ -29,6 +30,9 @@ class S(System):
             if self.first is not None:
                 self.first()                 # a structural change of the system set right before completing
             self.model.complete()
+        if self.raises:
+            self.raises = False
+            raise RuntimeError("user system failed")
 
 
 class T1(Component):
@@ -46,13 +50,21 @@ def _prestate(m, n, ps, t):
     return q
 
 
-def complete_midstep(p0: int, p1: int, p2: int, p3: int, c: int, t: int) -> bool:
+def complete_midstep(p0: int, p1: int, p2: int, p3: int, c: int, t: int, log_enabled: bool = True) -> bool:
     """
     pre: p0 >= p1 >= p2 >= p3
     pre: 0 <= c < hx.P['n']
     post: _
     """
     hx.begin()
+    NullLogger.enabled = log_enabled       # which log levels are enabled for the model's logger is ambient configuration
+    try:
+        return _complete_midstep(p0, p1, p2, p3, c, t)
+    finally:
+        NullLogger.enabled = True
+
+
+def _complete_midstep(p0, p1, p2, p3, c, t):
     n = hx.P['n']
     m = LogModel()
     q = _prestate(m, n, [p0, p1, p2, p3], t)
@@ -155,7 +167,22 @@ def after_complete_step(p0: int, p1: int, p2: int, t: int, inside: bool, n_adv: 
     a.add_component(T1(a, m))
     m.environment.add_agent(a)
     m.systems.timestep = t
-    if inside and n > 0:
+    if hx.P.get('interrupted') and n > 0:
+        # a system fails (the driver loop catches the error); the model is completed - by that very system just before
+        # it fails, or from outside afterwards; then the request
+        victim = q[0] if hx.P['interrupted'] == 'first' else q[n - 1]
+        victim.raises = True
+        victim.completes = inside
+        try:
+            m.execute()
+            return hx.end(hx.fail("a system's error did not reach the caller"))
+        except RuntimeError:
+            pass
+        victim.completes = False
+        if not inside:
+            m.complete()
+        hx.reach('completed_inside' if inside else 'completed_outside')
+    elif inside and n > 0:
         q[0].completes = True
         m.execute()                 # completes during a timestep
         q[0].completes = False
@@ -336,7 +363,8 @@ def obligations(tier):
         X("complete_during_multistep", complete_during_multistep,
           parts=[{"n": n, "k": k} for n, k in (((1, 2), (2, 3), (3, 2)) if tier == "quick" else ((1, 2), (2, 3), (3, 2), (3, 4), (2, 5)))],
           labels=("steps_skipped",), timeout=600, encoded=enc, bounds={"n": "1..3", "k": "2..%d" % (3 if tier == "quick" else 5)}),
-        X("after_complete_step", after_complete_step, parts=[{"n": n, "req": r} for n in ((0, 2, 3) if tier == "quick" else (0, 1, 2, 3)) for r in reqs],
+        X("after_complete_step", after_complete_step, parts=[{"n": n, "req": r} for n in ((0, 2, 3) if tier == "quick" else (0, 1, 2, 3)) for r in reqs] +
+          [{"n": 2, "req": r, "interrupted": w} for w in ("first", "last") for r in ("execute", "execute_n", "execute_systems", "execute_systems_strict")],
           labels=("completed_inside", "completed_outside"),
           labels_for=lambda p: ("completed_inside", "completed_outside") if p["n"] else ("completed_outside",),
           timeout=300, group=3, encoded=enc + (SystemManager.add_system, SystemManager.remove_system),
